@@ -278,6 +278,9 @@ static json handle(json const &cmd)
     if (cmd.contains("sys")) sys = getvecs(cmd["sys"]);
     if (cmd.contains("rand")) { P->rand_queue.clear(); for (double x : cmd["rand"]) P->rand_queue.push_back(x); }
     if (cmd.contains("dEdl")) P->alch_dEdl = cmd["dEdl"];
+    P->loop_lambda = cmd.value("lam", 0.0);
+    P->scripted_actual = cmd.value("actual", false);
+    if (cmd.contains("cvforce")) { P->scripted_forces.clear(); for (auto it = cmd["cvforce"].begin(); it != cmd["cvforce"].end(); ++it) P->scripted_forces[it.key()] = it.value().get<double>(); }
     if (cmd.contains("cell")) P->set_cell(cmd["cell"][0], cmd["cell"][1], cmd["cell"][2]);
     if (cmd.contains("perm")) P->smp_perm = cmd["perm"].get<std::vector<int>>();
     if (cmd.contains("assign")) P->smp_assign = cmd["assign"].get<std::vector<int>>();
